@@ -409,6 +409,16 @@ theorem rle_legacy_unbounded (c : Nat) :
   intro h
   simp [decodeRLE, rleTotal, h]
 
+/-- `validateRLE` must add the run lengths without wrap-around (the model sums in `Nat`, the code in
+    `uint64`): with a 32-bit running total the stream `(0, 2^32-1), (0, 5)` would pass for
+    `itemsCount = 4` although it expands to 2^32 + 4 items; the model rejects it. -/
+def rleTotal32 (src : List Nat) : Option Nat := (rleTotal src).map (· % 2 ^ 32)
+
+theorem rle_sum32_counterexample :
+    rleTotal32 [0, 4294967295, 0, 5] = some 4 ∧ rleTotal [0, 4294967295, 0, 5] = some 4294967300 ∧
+    decodeRLE [0, 4294967295, 0, 5] 4 = .err := by
+  decide
+
 /-! ### non-vacuity: concrete instances of the hypotheses -/
 
 /-- the identity pair is a lawful "compression". -/
